@@ -282,7 +282,10 @@ Facts31(o) ==
       (and, when verification is requested, whose chain verifies)"                              *)
 ServerWire == {"CorruptSKXSig", "CorruptSKXParams", "CorruptServerFinished"}
 ExpectedStd(scen) ==
-  [chain |-> scen \notin {"UntrustedRoot", "Expired", "NotYetValid", "WrongName", "BadLeafSig"},
+  \* server-name classes: the x509 hostname rule - DNS names against DNS SANs, IP literals (plain or
+  \* bracketed) against IP SANs only, a literal with a zone matches nothing, a trailing dot is ignored
+  [chain |-> scen \notin {"UntrustedRoot", "Expired", "NotYetValid", "WrongName", "BadLeafSig",
+                         "NameIP4Unlisted", "NameIP6BracketUnlisted", "NameIP6ZoneListed"},
    key   |-> scen # "WrongKey"]
 ExpectedCStd(cscen) ==
   [sent  |-> cscen \notin {"", "NoClientCert"},
@@ -319,6 +322,32 @@ Judge27(o) ==
 Facts27(o) ==
   [kind |-> Judge27(o), vers |-> o.vers, scen |-> o.scen, cscen |-> o.cscen, auth |-> o.auth,
    key |-> o.key, kx |-> IF o.suite = 0 THEN "T13" ELSE Tbl(o.suite).kx, fired |-> o.fired]
+
+(* Multi-step authentication histories (harness/cmd/c27 runh): 2-3 connections sharing a
+   ClientSessionCache and the server's ticket keys while the client's verification settings
+   (InsecureSkipVerify, ServerName, Time) or the server's certificate change.  The statement's clause
+   "a client completes a handshake only if the server's chain verifies to the configured roots for
+   the configured server name at the configured time" applies to EVERY completed connection of a
+   verifying client, resumed or not: the chain such a connection relies on - the one presented in it,
+   or, for a resumed connection, the one presented when the session was established (step `origin`)
+   - must verify (standard library verdict `relied_ok`) under THIS connection's settings.  So a
+   session established without verification never lets a verifying client complete.  Positive side
+   (vacuity guard): a non-verifying client always completes; a verifying client completes when the
+   server's present chain verifies. *)
+PresentedExpected(st) == st.scert = "A" /\ st.name = "dns" /\ st.time = "now"
+StepProblem(st, b) ==
+  IF b.cpanic \/ b.spanic \/ b.chang \/ b.shang THEN "panic-or-hang"
+  ELSE IF b.presented_ok # PresentedExpected(st) THEN "harness-pki-mismatch"
+  ELSE IF ~st.skip /\ b.cdone /\ ~b.relied_ok THEN
+       (IF b.cres THEN "verifying-client-resumed-unverified-session" ELSE "client-completed-with-unauthenticated-server")
+  ELSE IF b.cdone /\ b.sdone /\ b.cres # b.sres THEN "disagreement"
+  ELSE IF (st.skip \/ b.presented_ok) /\ ~(b.cdone /\ b.sdone /\ b.dataok) THEN "good-step-failed"
+  ELSE "ok"
+Problems27H(o) ==
+  { [kind |-> StepProblem(o.steps[i], o.obs[i]), step |-> i, vers |-> o.vers, skip |-> o.steps[i].skip,
+     resumed |-> o.obs[i].cres, origin |-> o.obs[i].origin,
+     origin_skip |-> IF o.obs[i].origin = 0 THEN FALSE ELSE o.steps[o.obs[i].origin].skip] :
+    i \in {j \in 1..Len(o.steps) : StepProblem(o.steps[j], o.obs[j]) # "ok"} }
 
 -----------------------------------------------------------------------------
 (* C28 - the client handshake log.  harness/cmd/c28 projects the captured transcript (raw
@@ -413,7 +442,11 @@ Facts32(o) ==
    rtype |-> o.rtype, vers |-> o.vers, suite |-> o.suite, auth |-> o.auth]
 
 (* Judge of one observed connection of an honest or downgrade-tampered run (C24).
-   o = [c, s, down, second, obs]; obs as logged by harness/lib/tlsh.Observe.
+   o = [c, s, down, second, ccert, obs]; obs as logged by harness/lib/tlsh.Observe.  The server's
+   ClientAuthType (s.auth) and whether the client holds a certificate (ccert) are part of the
+   configuration pair: agreement on version, suite, ALPN, resumption status and exported keying
+   material is demanded for all five ClientAuthTypes, with and without a client certificate, with
+   and without tickets, fresh and resumed.
    Returns "ok" or the kind of violation. *)
 Judge24(o) ==
   LET n == Negotiate(o.c, o.s, o.down)
@@ -422,6 +455,10 @@ Judge24(o) ==
       canaryBad == n.canary \in {"12", "11"} /\ b.canary # "nosh" /\ b.canary # n.canary
   IN
   IF b.cpanic \/ b.spanic \/ b.chang \/ b.shang THEN "panic-or-hang"
+  \* the server requires a client certificate and the client has none: the server must not complete
+  \* (C27's clause); nothing else is demanded of such a pair (a TLS 1.3 client completes first)
+  ELSE IF o.down = 0 /\ o.s.auth \in {2, 4} /\ ~o.ccert THEN
+       (IF b.sdone /\ n.mode # "no" THEN "server-completed-without-client-certificate" ELSE "ok")
   ELSE IF o.down # 0 THEN
        \* the adversary rewrote the ClientHello: the client must never complete (the Finished
        \* check covers the hello), and must abort on the sentinel where the RFC says so
@@ -446,32 +483,33 @@ Judge24(o) ==
 (* B level (model drift, never a violation): the handshake message types each side consumes in a
    completed honest handshake are the flights of the machine TLSHandshakeMC (message type numbers:
    1 ClientHello, 2 ServerHello/HRR, 4 NewSessionTicket, 8 EncryptedExtensions, 11 Certificate,
-   12 ServerKeyExchange, 13 CertificateRequest, 14 ServerHelloDone, 15 CertificateVerify,
+   12 ServerKeyExchange, 13 CertificateRequest (ClientAuthType >= RequestClientCert), 14 ServerHelloDone, 15 CertificateVerify,
    16 ClientKeyExchange, 20 Finished).  Optional: NewSessionTicket, a HelloRetryRequest round,
    any number of TLS 1.3 post-handshake tickets. *)
 OptT(c, t) == IF c THEN <<t>> ELSE <<>>
 RECURSIVE StripTickets(_)
 StripTickets(s) == IF s # <<>> /\ s[Len(s)] = 4 THEN StripTickets(SubSeq(s, 1, Len(s) - 1)) ELSE s
-ClientReadShapes(v, suite, resumed) ==
-  IF v = 13 THEN { OptT(hrr, 2) \o <<2, 8>> \o (IF resumed THEN <<>> ELSE <<11, 15>>) \o <<20>> : hrr \in BOOLEAN }
+ClientReadShapes(v, suite, resumed, cr) ==
+  IF v = 13 THEN { OptT(hrr, 2) \o <<2, 8>> \o (IF resumed THEN <<>> ELSE OptT(cr, 13) \o <<11, 15>>) \o <<20>> : hrr \in BOOLEAN }
   ELSE IF resumed THEN { <<2>> \o OptT(nst, 4) \o <<20>> : nst \in BOOLEAN }
-  ELSE { <<2, 11>> \o OptT(Tbl(suite).kx # "RSA", 12) \o <<14>> \o OptT(nst, 4) \o <<20>> : nst \in BOOLEAN }
-ServerReadShapes(v, resumed) ==
-  IF v = 13 THEN { <<1>> \o OptT(hrr, 1) \o <<20>> : hrr \in BOOLEAN }
-  ELSE IF resumed THEN { <<1, 20>> } ELSE { <<1, 16, 20>> }
+  ELSE { <<2, 11>> \o OptT(Tbl(suite).kx # "RSA", 12) \o OptT(cr, 13) \o <<14>> \o OptT(nst, 4) \o <<20>> : nst \in BOOLEAN }
+ServerReadShapes(v, resumed, cr, cert) ==
+  IF v = 13 THEN { <<1>> \o OptT(hrr, 1) \o OptT(cr /\ ~resumed, 11) \o OptT(cr /\ cert /\ ~resumed, 15) \o <<20>> : hrr \in BOOLEAN }
+  ELSE IF resumed THEN { <<1, 20>> }
+  ELSE { <<1>> \o OptT(cr, 11) \o <<16>> \o OptT(cr /\ cert, 15) \o <<20>> }
 Drift24(o) ==
-  LET b == o.obs IN
+  LET b == o.obs  cr == o.s.auth >= 1 IN
   IF o.id < 0 \/ o.down # 0 \/ ~(b.cdone /\ b.sdone) \/ ~Known(b.csuite) THEN "ok"     \* id < 0: the driver's self-test copies
-  ELSE IF (IF b.cvers = 13 THEN StripTickets(b.ctypes) ELSE b.ctypes) \notin ClientReadShapes(b.cvers, b.csuite, b.cres)
+  ELSE IF (IF b.cvers = 13 THEN StripTickets(b.ctypes) ELSE b.ctypes) \notin ClientReadShapes(b.cvers, b.csuite, b.cres, cr)
        THEN "client-message-sequence"
-  ELSE IF b.stypes \notin ServerReadShapes(b.svers, b.sres) THEN "server-message-sequence"
+  ELSE IF b.stypes \notin ServerReadShapes(b.svers, b.sres, cr, o.ccert) THEN "server-message-sequence"
   ELSE "ok"
 
 \* abstract facts about a judged record, for the replay signature (known-findings matcher)
 Facts24(o) ==
   LET n == Negotiate(o.c, o.s, o.down) IN
   [kind |-> Judge24(o), vers |-> n.vers, mode |-> n.mode, down |-> o.down, second |-> o.second,
-   prefer |-> o.s.prefer, key |-> o.s.key,
+   prefer |-> o.s.prefer, key |-> o.s.key, auth |-> o.s.auth, ccert |-> o.ccert, resumed |-> o.obs.sres,
    server_restricts_tls13 |-> Server13Restricted(o.s),
    suite_in_server_list |-> IF o.obs.ssuite \in T13Suites THEN o.obs.ssuite \in Rng(Cfg13(o.s))
                             ELSE o.obs.ssuite \in Rng(CfgLegacy(o.s)),
